@@ -34,4 +34,5 @@ def check(ctx):
     ctx.floor("GRADPATH", 30)
     ctx.floor("AUTOGRAD", 10)
     kernels.pchip_evaluation(ctx)
+    kernels.pchip_end_slopes(ctx)
     grad.backward_covers_every_qubit(ctx)
